@@ -335,6 +335,7 @@ type c01VCR struct {
 func (v c01VCR) Verifier() verifier.Verifier { return v.n.ver }
 
 type c01Nodes struct {
+	revleg     *c01RevLeg
 	fstore     *c01FaultStore
 	iver       verifier.Verifier
 	vstore     verifier.Store
@@ -1502,6 +1503,132 @@ func c01CaseVariantLeg(o *c01Out, rnd *rand.Rand, n int) {
 	}
 }
 
+// ---------------------------------------------------------------- deepening round 3: the revocation lookup on the real leia store
+
+// c01RevLeg runs leiaVerifierStore.GetRevocations, verifier.IsRevoked and verifier.GetRevocation on a real store that holds, for the
+// op's credential id, the given documents (decodable ones through StoreRevocation, undecodable ones inserted raw), next to revocations of
+// look-alike ids; `fault` reads from a real store whose database is closed.
+type c01RevLeg struct {
+	open, closed verifier.Store
+	n            int
+	tag          string
+}
+
+func newC01RevLeg(t *testing.T, tag string) *c01RevLeg {
+	dir := testio.TestDirectory(t)
+	mk := func(name string) verifier.Store {
+		s, err := verifier.NewLeiaVerifierStore(path.Join(dir, name+".db"), storage.CreateTestBBoltStore(t, path.Join(dir, name+"-b.db")))
+		if err != nil {
+			t.Fatal(err)
+		}
+		return s
+	}
+	r := &c01RevLeg{open: mk("revleg"), closed: mk("revleg-closed"), tag: tag}
+	_ = r.closed.Close()
+	t.Cleanup(func() { _ = r.open.Close() })
+	return r
+}
+
+func (r *c01RevLeg) op(o *c01Out, label string, docs []bool, fault, near bool) {
+	r.n++
+	op := map[string]any{"op": "revstore", "label": label, "docs": docs, "fault": fault, "near": near}
+	line := func() (line string) {
+		defer func() {
+			if p := recover(); p != nil {
+				line = "panic:revstore"
+			}
+		}()
+		id := "urn:verif:rev:" + r.tag + strconv.Itoa(r.n) + ":x"
+		add := func(subject string, i int, decodes bool) {
+			if decodes {
+				if err := r.open.StoreRevocation(credential.Revocation{Issuer: ssi.MustParseURI("did:x:i"), Subject: ssi.MustParseURI(subject), Reason: strconv.Itoa(i), Date: time.Unix(1700000000+int64(i), 0).UTC()}); err != nil {
+					panic(err)
+				}
+				return
+			}
+			bad := []string{`"not-a-date"`, `12`, `"2023-13-45T00:00:00Z"`}[i%3]
+			if err := verifier.VerifAddRawRevocation(r.open, []byte(`{"issuer":"did:x:i","subject":"`+subject+`","reason":"`+strconv.Itoa(i)+`","date":`+bad+`}`)); err != nil {
+				panic(err)
+			}
+		}
+		for i, d := range docs {
+			add(id, i, d)
+		}
+		if near {
+			add(id+"y", 100, true)
+			add(strings.TrimSuffix(id, "x"), 101, true)
+			add(strings.ToUpper(id), 102, true)
+			add(strings.TrimSuffix(id, ":x"), 103, false)
+		}
+		st := r.open
+		if fault {
+			st = r.closed
+		}
+		uri := ssi.MustParseURI(id)
+		revs, err := st.GetRevocations(uri)
+		get := ""
+		switch {
+		case err == nil:
+			get = "found:" + strconv.Itoa(len(revs))
+			for _, rv := range revs {
+				if rv == nil || rv.Subject.String() != id {
+					get += "!foreign"
+				}
+			}
+		case errors.Is(err, verifier.ErrNotFound):
+			get = "not-found"
+		case strings.HasPrefix(err.Error(), "error while getting revocation by id"):
+			get = "read-error"
+		default:
+			get = "decode-error"
+		}
+		v := verifier.VerifRevLookup(st)
+		revoked, err := v.IsRevoked(uri)
+		rs := strconv.FormatBool(revoked)
+		if err != nil {
+			rs = "error"
+			if revoked {
+				rs = "error+true"
+			}
+		}
+		one := "ok"
+		func() {
+			defer func() {
+				if p := recover(); p != nil {
+					one = "panic"
+				}
+			}()
+			if rv, err := v.GetRevocation(uri); err != nil {
+				one = "err"
+			} else if rv == nil || rv.Subject.String() != id {
+				one = "ok!foreign"
+			}
+		}()
+		return "get=" + get + " revoked=" + rs + " one=" + one
+	}()
+	o.emit(op, line)
+}
+
+func c01RevStoreLeg(t *testing.T, o *c01Out, rnd *rand.Rand, n int) {
+	r := newC01RevLeg(t, "g")
+	// every shape once, then random ones
+	fixed := []struct {
+		docs        []bool
+		fault, near bool
+	}{{nil, false, false}, {nil, false, true}, {nil, true, false}, {[]bool{true}, false, false}, {[]bool{true}, true, true}, {[]bool{false}, false, false},
+		{[]bool{true, true}, false, true}, {[]bool{true, false}, false, false}, {[]bool{false, true}, false, true}, {[]bool{true, true, true, false}, false, false}}
+	for _, f := range fixed {
+		r.op(o, "revstore", f.docs, f.fault, f.near)
+	}
+	for i := len(fixed); i < n; i++ {
+		var docs []bool
+		for j, k := 0, []int{0, 0, 1, 1, 2, 3, 5}[rnd.Intn(7)]; j < k; j++ {
+			docs = append(docs, rnd.Intn(4) != 0)
+		}
+		r.op(o, "revstore", docs, rnd.Intn(5) == 0, rnd.Intn(2) == 0)
+	}
+}
+
 func TestVerifC01(t *testing.T) {
 	outDir := os.Getenv("VERIF_OUT")
 	if outDir == "" {
@@ -1543,6 +1670,7 @@ func TestVerifC01(t *testing.T) {
 	n := newC01Nodes(t)
 	n.generate(o, rnd, thorough)
 	c01CaseVariantLeg(o, rnd, map[bool]int{false: 600, true: 5000}[thorough])
+	c01RevStoreLeg(t, o, rnd, map[bool]int{false: 150, true: 1200}[thorough])
 	statusScenario(t, o, rnd, "", true)
 	statusScenario(t, o, rnd, "fold-after-cache", false)
 	statusScenario(t, o, rnd, "down-after-cache", false)
@@ -3264,6 +3392,20 @@ func (n *c01Nodes) replay(o *c01Out, file string, prefix string) {
 			n.trustFile(o, rows)
 		case "case-variant":
 			c01CaseVariantOp(o, prefix+str("label"), str("text"), str("into"))
+		case "revstore":
+			var docs []bool
+			if arr, ok := op["docs"].([]any); ok {
+				for _, x := range arr {
+					b, _ := x.(bool)
+					docs = append(docs, b)
+				}
+			}
+			fault, _ := op["fault"].(bool)
+			near, _ := op["near"].(bool)
+			if n.revleg == nil {
+				n.revleg = newC01RevLeg(n.w.t, "r")
+			}
+			n.revleg.op(o, prefix+str("label"), docs, fault, near)
 		case "vc", "vp":
 			c := c01Call{kind: str("op"), text: str("text"), label: prefix + str("label"), base: prefix + str("base"), mut: str("mut"), path: str("path")}
 			c.allowUntrusted, _ = op["allowUntrusted"].(bool)
